@@ -378,8 +378,16 @@ type signedDeliverer struct {
 	label  string
 }
 
+// spreadGaps: distances between consecutive signed frames of a sender that has been running for a long time
+// (the "-spread" deliverers): the filter must order frames that are hours, days or months apart exactly like
+// frames a millisecond apart.
+var spreadGaps = []time.Duration{time.Millisecond, time.Second, time.Minute, time.Hour - time.Millisecond, time.Hour, time.Hour + time.Millisecond,
+	2 * time.Hour, 24 * time.Hour, 30 * 24 * time.Hour, 365 * 24 * time.Hour}
+
 func newSignedDeliverer(r *rand.Rand, mt frame.MessageType, max uint32, label string) *signedDeliverer {
 	d := &signedDeliverer{frames: map[uint32][]byte{}, label: label}
+	spread := strings.HasSuffix(label, "-spread")
+	spreadAt := time.Now().Round(time.Millisecond).Add(-6 * 365 * 24 * time.Hour)
 	d.a = env.NewBareInstance(env.NewIdentity(r, nil), nil)
 	d.idB = env.NewIdentity(r, nil)
 	b := env.NewBareInstance(d.idB, nil)
@@ -393,7 +401,16 @@ func newSignedDeliverer(r *rand.Rand, mt frame.MessageType, max uint32, label st
 		if err != nil {
 			panic(err)
 		}
-		if err := f.Seal(ab); err != nil {
+		if spread {
+			// signed by hand with the sender's key, like Seal does, but with a timestamp of the sender's past
+			spreadAt = spreadAt.Add(spreadGaps[r.IntN(len(spreadGaps))])
+			f.SetTTL(0)
+			f.SetSequenceTime(spreadAt)
+			if err := f.SignRaw(d.a.IdentityV.PrivateKey); err != nil {
+				panic(err)
+			}
+			f.SetTTL(32)
+		} else if err := f.Seal(ab); err != nil {
 			panic(err)
 		}
 		if !f.SequenceTime().After(last) {
@@ -773,6 +790,7 @@ func run(c *core.Ctx) {
 		func(r *rand.Rand) deliverer {
 			return newSignedDeliverer(r, frame.RouterHopPingDeprecated, 6, "signed-hop-deprecated")
 		},
+		func(r *rand.Rand) deliverer { return newSignedDeliverer(r, frame.RouterPing, 6, "signed-ping-spread") },
 	}
 	before := res.Evaluations
 	for li, mkd := range layers {
@@ -838,6 +856,7 @@ func run(c *core.Ctx) {
 		r := core.RNG(fmt.Sprintf("c03/mixed/%d", w))
 		mixed(res, r, mixedRuns/W+1)
 		sessionEvents(res, r, 6)
+		sessionLifetime(res, r, 6)
 	})
 
 	// Concurrent deliveries + linearizability, plain build.
@@ -1079,5 +1098,116 @@ func sessionEvents(res *core.Result, r *rand.Rand, runs int) {
 			res.Count("hostile_key_setups_refused", int64(failed))
 		}
 		res.Case(fmt.Sprintf("session-events|%d|%d", run%3, run), true)
+	}
+}
+
+// sessionLifetime: delivery histories with the passage of time and the session cleaner's ticks between
+// deliveries. Receivers look the session up through State.GetSession for every frame (as the router does), time
+// passes through the VerifAdvanceTime hook and the cleaner runs through VerifHousekeeping. The sessions are in
+// continuous use: between two uses of a session less than its idle lifetime passes (55 s of the 1 min for a
+// session without encryption keys, 55 min of the 1 h for one with keys), so no cleaner tick may forget what was
+// accepted. (A session that really is idle beyond its lifetime is dropped together with its replay state by
+// design; that is outside these histories and noted in DESIGN.md.)
+func sessionLifetime(res *core.Result, r *rand.Rand, runs int) {
+	type sent struct {
+		data     []byte
+		desc     string
+		at, from *env.Instance
+	}
+	for run := 0; run < runs; run++ {
+		withKeys := run%2 == 1
+		a := env.NewBareInstance(env.NewIdentity(r, nil), nil)
+		b := env.NewBareInstance(env.NewIdentity(r, nil), nil)
+		ab, ba, err := env.Introduce(a, b)
+		if err != nil {
+			res.Inconcl("introduce: %v", err)
+			return
+		}
+		unit := time.Second
+		types := []frame.MessageType{frame.RouterPing}
+		if withKeys {
+			if err := env.KeyExchange(ab, ba); err != nil {
+				res.Inconcl("key exchange: %v", err)
+				return
+			}
+			unit = time.Minute
+			types = []frame.MessageType{frame.RouterPing, frame.RouterCtrl, frame.SessionData}
+		}
+		var all []sent
+		var history []string
+		deliverFresh := func(from, to *env.Instance, mt frame.MessageType, desc string) bool {
+			sf := from.StateV.GetSession(to.IdentityV.IP)
+			if sf == nil {
+				res.Inconcl("sender has no session")
+				return false
+			}
+			data, err := sealTo(from, to, sf, mt)
+			if err != nil {
+				res.Violate("session-lifetime:seal-failed", fmt.Sprintf("%s: sealing failed: %v (history: %s)", desc, err, strings.Join(history, "; ")), map[string]any{"case_id": "lifetime"})
+				return false
+			}
+			st := to.StateV.GetSession(from.IdentityV.IP)
+			if st == nil {
+				res.Violate("session-lifetime:no-session", fmt.Sprintf("%s: the receiver has no session for a known router (history: %s)", desc, strings.Join(history, "; ")), map[string]any{"case_id": "lifetime"})
+				return false
+			}
+			if err := unsealAt(to, st, data); err != nil {
+				res.Violate("session-lifetime:fresh-frame-rejected", fmt.Sprintf("%s: a frame delivered in order, for the first time, was rejected: %v (history: %s)", desc, err, strings.Join(history, "; ")), map[string]any{"case_id": "lifetime"})
+				return false
+			}
+			all = append(all, sent{data, desc, to, from})
+			history = append(history, desc)
+			return true
+		}
+		replayAll := func(when string) bool {
+			for _, x := range all {
+				st := x.at.StateV.GetSession(x.from.IdentityV.IP)
+				if st == nil {
+					continue
+				}
+				if err := unsealAt(x.at, st, x.data); err == nil {
+					res.Violate("session-lifetime:frame-accepted-twice", fmt.Sprintf("%s: the frame of step '%s' unsealed a second time although the session was in use all the time (history: %s)", when, x.desc, strings.Join(history, "; ")), map[string]any{"when": when, "step": x.desc, "case_id": "lifetime"})
+					return false
+				}
+			}
+			return true
+		}
+		ok := true
+		for step := 0; step < 14 && ok; step++ {
+			for _, mt := range types {
+				ok = ok && deliverFresh(a, b, mt, fmt.Sprintf("A->B type %d #%d", mt, step))
+				if step%2 == 0 {
+					ok = ok && deliverFresh(b, a, mt, fmt.Sprintf("B->A type %d #%d", mt, step))
+				}
+			}
+			if !ok {
+				break
+			}
+			// time passes (less than the idle lifetime since the last use), the cleaner ticks 0..2 times
+			d := time.Duration([]int{5, 20, 31, 45, 55}[r.IntN(5)]) * unit
+			a.StateV.VerifAdvanceTime(d)
+			b.StateV.VerifAdvanceTime(d)
+			history = append(history, fmt.Sprintf("%s pass", d))
+			for k := r.IntN(3); k > 0; k-- {
+				a.StateV.VerifHousekeeping()
+				b.StateV.VerifHousekeeping()
+				history = append(history, "cleaner tick")
+			}
+			if step%3 == 2 || step == 13 {
+				if !replayAll(fmt.Sprintf("after %s and a cleaner tick", d)) {
+					return
+				}
+				res.Count("lifetime_replay_rounds", 1)
+			}
+		}
+		if !ok {
+			return
+		}
+		if !b.StateV.VerifHasSession(a.IdentityV.IP) {
+			res.Violate("session-lifetime:session-in-use-dropped", fmt.Sprintf("the session of a router was dropped by the cleaner although it was used within its idle lifetime (history: %s)", strings.Join(history, "; ")), map[string]any{"case_id": "lifetime"})
+			return
+		}
+		res.Count(fmt.Sprintf("session_lifetime_histories:keys=%v", withKeys), 1)
+		res.Case(fmt.Sprintf("session-lifetime|%v|%d", withKeys, run), true)
 	}
 }
